@@ -100,7 +100,11 @@ func (w *FindRules) Do(ctx *Context, loc *Location) {
 	w.Children = make([]*EvalRule, 0, 0)
 	for id, rule := range rs {
 		Log(DEBUG, ctx, "FindRules.Do", "rid", id)
-		rule.Id = id
+		if rule.Id != id {
+			// A rule from the state's cache already has its id
+			// (and is shared, so we shouldn't write to it).
+			rule.Id = id
+		}
 
 		var bss []Bindings
 		var err error
